@@ -482,6 +482,39 @@ func main() {
 		if seen["bridge:missing-message"]+seen["bridge:extra-message"] >= 3 {
 			break // every script with a missing message costs a 2 s wait; three witnesses are enough
 		}
+		if i%4 == 3 {
+			// two scripts at the same time, each on its own pipe / bridge with its own model: instances are independent,
+			// what one is asked must not show in the other (the build has the race detector on as well)
+			var s2 *script
+			if i%8 == 3 {
+				s2 = genDpipe(rng)
+			} else {
+				s2 = genBridge(rng)
+			}
+			type out struct {
+				k, d string
+				at   int
+			}
+			ch := make(chan out, 1)
+			go func() { k, d, at := run(s2); ch <- out{k, d, at} }()
+			k1, d1, at1 := run(s)
+			o2 := <-ch
+			r.Count("script_pairs_run_at_the_same_time", 1)
+			for _, x := range []struct {
+				sc *script
+				o  out
+			}{{s, out{k1, d1, at1}}, {s2, o2}} {
+				if x.o.k != "" {
+					k := "paired:" + x.o.k
+					seen[x.o.k]++
+					seen[k]++
+					if seen[k] <= 2 {
+						r.Violate(k, x.o.d+" (another script was running on its own instance at the same time)", x.sc)
+					}
+				}
+			}
+			continue
+		}
 		if k, d, at := run(s); k != "" {
 			seen[k]++
 			if seen[k] <= 2 {
